@@ -1053,6 +1053,25 @@ func jsonPath(msg json.RawMessage, p string) json.Marshaler {
 		if json.Unmarshal(msg, &m) != nil {
 			return msg
 		}
+		key := p
+		if i := strings.IndexRune(p, '.'); i >= 0 {
+			key = p[:i]
+		}
+		if _, ok := m[key]; !ok && len(m) > 0 {
+			// Without type information, a typed map of structs looks the
+			// same as a struct.  If the field is not a key of this object,
+			// treat the object as a typed map and project through each of
+			// its values, as is done for arrays.
+			result := make(LazyArgumentMap, len(m))
+			for k, v := range m {
+				if sub := jsonPath(v, p); sub != nil {
+					if b, err := sub.MarshalJSON(); err == nil {
+						result[k] = b
+					}
+				}
+			}
+			return result
+		}
 		return m.jsonPath(p)
 	case '[':
 		var arr []json.RawMessage
